@@ -28,9 +28,10 @@ MCTick == /\ Tick
 MCNext == (\E c \in Clients : MCAllow(c)) \/ MCTick
 
 NoViolation == obs.viol = <<>>
-Bound == obs.now <= 9 /\ \A c \in DOMAIN obs.adm : Len(obs.adm[c]) <= 8
+Bound == obs.now <= 7 /\ \A c \in DOMAIN obs.adm : Len(obs.adm[c]) <= 5 /\ TLCGet("level") <= 8
 
-CfgQuick == {[max |-> m, r |-> r] : m \in 1..3, r \in 1..3}
+CfgQuick == {[max |-> m, r |-> r] : m \in 1..4, r \in {1, 3}}
+CfgIso == {[max |-> 2, r |-> 1], [max |-> 2, r |-> 3], [max |-> 1, r |-> 2]}
 CfgAll == {[max |-> m, r |-> r] : m \in 1..5, r \in 1..3}
 
 SView == <<cf, bucket>>
